@@ -32,7 +32,7 @@
 static m_queue_t *g_evq;
 #include "abs.contracts.h"
 #include "cb.contracts.h"
-#if defined(V_TELLSUBS_UNIT) || defined(V_FETCHSUB_UNIT) || defined(V_SUBSCRIBE_UNIT) || defined(V_ROUTE_UNIT)
+#if defined(V_TELLSUBS_UNIT) || defined(V_FETCHSUB_UNIT) || defined(V_SUBSCRIBE_UNIT) || defined(V_ROUTE_UNIT) || defined(V_UNSUB_UNIT)
 #include "subs.contracts.h"
 #else
 #include "ps.contracts.h"
@@ -94,7 +94,7 @@ void h_flush(void) {
 }
 #endif
 
-#if defined(V_TELLSUBS_UNIT) || defined(V_FETCHSUB_UNIT) || defined(V_SUBSCRIBE_UNIT) || defined(V_ROUTE_UNIT)
+#if defined(V_TELLSUBS_UNIT) || defined(V_FETCHSUB_UNIT) || defined(V_SUBSCRIBE_UNIT) || defined(V_ROUTE_UNIT) || defined(V_UNSUB_UNIT)
 static char g_topicbuf[2] = "t";
 static void build_subs(void) {
     build();
@@ -170,6 +170,18 @@ void h_tell_system(void) {
     int r = tell_system_pubsub_msg(vin_has_key ? &rcp : NULL, g_ctx, vin_has_sub ? g_mod : NULL, g_topic);
     V_COVER("system-broadcast-nobody-running", r == 0 && !vin_has_key && vin_running == 0 && g.tellsubs_calls == 1); V_COVER("system-direct", r == 0 && vin_has_key && g.tellif_calls == 1);
     V_COVER("system-without-sender", r == 0 && !vin_has_sub);
+    V_CANARY();
+}
+#endif
+
+#ifdef V_UNSUB_UNIT
+void h_unsubscribe(void) {
+    build_subs();
+    V_ASSUME(vin_pipe_len > 0 && vin_pipe_len < ((uint64_t)1 << 58));
+    g_mctx = vin_mctx_kind == 0 ? g_ctx : NULL; g_mod->subscriptions = (m_map_t *)g_tab; g_maprm_ret = vin_has_key ? -ENOENT : 0;
+    int r = m_mod_ps_unsubscribe(g_mod, vin_alloc_fails ? NULL : g_topic);
+    V_COVER("unsub-last", r == 0 && vin_pipe_len == 1 && g_mod->subscriptions == NULL); V_COVER("unsub-one-of-many", r == 0 && vin_pipe_len == 9 && g_mod->subscriptions != NULL); V_COVER("unsub-absent", r == -ENOENT);
+    V_COVER("unsub-denied", r == -EPERM);
     V_CANARY();
 }
 #endif
